@@ -103,6 +103,12 @@ def check_add(run, F, prefix="R-CONTAINER"):
                 run.ob(prefix, "add(hit): group list unchanged", not pushes, [tshow(c)[:80] for c in pushes], site(b), key="%s|%s|hit-push" % (prefix, ADD))
             else:
                 newg = recv[2][0] if is_call(recv, "ipp::attribute::IppAttributeGroup::attributes_mut") else None
+                if isinstance(newg, tuple) and newg[0] == "index" and groups_list(newg[1]) and isinstance(newg[2], tuple) and newg[2][0] == "bin" and newg[2][1] == "Sub" and \
+                        is_call(newg[2][2], "std::vec::Vec::<T, A>::len") and groups_list(newg[2][2][2][0]) and newg[2][3] == ("lit", 1):
+                    # push(new group) first, then `groups[groups.len() - 1]`: the element just appended
+                    pushed = [c for c in calls if c[1] == "std::vec::Vec::<T, A>::push" and groups_list(c[2][0])]
+                    if len(pushed) == 1 and calls.index(pushed[0]) < calls.index(t):
+                        newg = pushed[0][2][1]
                 okn = is_call(newg, "ipp::attribute::IppAttributeGroup::new") and newg[2][0] == ("var", tag_p)
                 run.ob(prefix, "add(miss): new group of the requested kind", okn, "target %s" % tshow(recv)[:120], site(b, t[3]), key="%s|%s|miss-group" % (prefix, ADD))
                 pushes = [c for c in calls if c[1] == "std::vec::Vec::<T, A>::push"]
